@@ -48,6 +48,7 @@ type Case struct {
 	OnlyDestRegs bool        // -hw-optimizations onlydestregs with the requirement tree derived from the programs
 	Commented    bool        // -comment-verilog
 	Strict       bool        // replay files of recorded findings: judge the recorded signatures too
+	Focus        string      `json:",omitempty"` // replay files of recorded findings: judge only this signature (implies Strict for it)
 }
 
 // ---------------------------------------------------------------------------
